@@ -458,6 +458,10 @@ def pre_c16(prop, tier, seed, out):
     if (runner.REPO / "Cargo.lock").exists():
         shutil.copy(runner.REPO / "Cargo.lock", dst / "Cargo.lock")
     env = dict(runner.BASE_ENV)
+    # the libraries must be allowed to colour: no NO_COLOR / CLICOLOR in their environment
+    for k in ("NO_COLOR", "CLICOLOR", "CLICOLOR_FORCE", "TERM"):
+        env.pop(k, None)
+    env["TERM"] = "xterm-256color"
     env["CARGO_TARGET_DIR"] = str(runner.WORK / "adapters-native")
     t0 = time.time()
     r = subprocess.run(["cargo", "test", "--offline", "--test", "render"], cwd=dst, env=env, capture_output=True, text=True, timeout=1800)
